@@ -493,14 +493,25 @@ def r2(ctx: Ctx) -> None:
                "the listed side is normalised by the same function as the reachable side")
     mt = ctx.fn(GC + "._marker_target")
     mg = ctx.cfg(mt)
-    for r in [n for n in mg.nodes if n.kind == "return" and n.id in mg.reachable()]:
-        v = r.ast.value  # type: ignore[union-attr]
-        is_norm = _is_norm_call(ctx, v)
-        s = fold_str(ctx, mt, v, r.id)
-        is_fallback = s is not None and s.startswith("data/")
-        ctx.ob("C05.R2", mt, "marker target is normalised (or the legacy data/<name> convention)", r, is_norm or is_fallback,
+    from .common import effective_returns, resolve_value
+    for r, v0 in effective_returns(ctx, mt):
+        srcs = [(x, a) for x, a in resolve_value(ctx, mt, v0, r.id)] if v0 is not None else []
+        verdicts = []
+        lossy = None
+        for v, at_ in srcs or [(v0, r.id)]:
+            is_norm = v is not None and _is_norm_call(ctx, v)
+            s = fold_str(ctx, mt, v, at_) if v is not None else None
+            is_fallback = s is not None and s.startswith("data/")
+            # the legacy name is the marker's basename minus EXACTLY the suffix: a character-set strip (`rstrip('.inflight')`
+            # eats the 't' of 'x.parquet') names a file that does not exist, and the real one loses its protection
+            if is_fallback and v is not None:
+                for x in ast.walk(v):
+                    if isinstance(x, ast.Call) and isinstance(x.func, ast.Attribute) and x.func.attr in ("rstrip", "strip", "lstrip", "replace", "split", "partition"):
+                        lossy = norm_text(x)[:60]
+            verdicts.append(is_norm or is_fallback)
+        ctx.ob("C05.R2", mt, "marker target is normalised (or the legacy data/<name> convention)", r, bool(verdicts) and all(verdicts) and lossy is None,
                "protected paths are comparable with listed paths; the single allow-listed literal is the legacy "
-               "marker fallback 'data/' + basename")
+               "marker fallback 'data/' + basename" + (f"; `{lossy}` does not remove exactly the marker suffix" if lossy else ""))
     # (b) PATHPREFIX - generic over the package
     n_sites = 0
     for f2 in ctx.prog.functions.values():
